@@ -89,6 +89,7 @@ func vC11Two(ka, kb int) {
 	want2 := c2()
 	vAssert(got1 == want1, "C11 first call returns its solo result")
 	vAssert(got2 == want2, "C11 second call returns its solo result")
+	vNativeStress("C11 stress: a call returned something else than its solo result", func() bool { return c1() == want1 }, func() bool { return c2() == want2 })
 	vReach("end")
 }
 
@@ -198,6 +199,8 @@ func H_C11_quoted_rules() {
 	vGo(func() { g2 = c2() })
 	vJoin()
 	cacheStructType = NewLRU(1)
-	vAssert(g1 == c1() && g2 == c2(), "C11 quoted rules: solo results")
+	w1, w2 := c1(), c2()
+	vAssert(g1 == w1 && g2 == w2, "C11 quoted rules: solo results")
+	vNativeStress("C11 stress: a call returned something else than its solo result", func() bool { return c1() == w1 }, func() bool { return c2() == w2 })
 	vReach("end")
 }
